@@ -27,7 +27,7 @@ theorem emitted_out_of_range_differs_old (f : Field) (v : Rat) (p : Profile) (w 
       have := Rat.intCast_inj.1 this
       omega
     · rw [if_neg hc] at hw; cases hw
-  case outlineCoord | compOffset | lsb | kernValue | anchorCoord | valueDelta | gvarDelta | hvarDelta | metricI16 =>
+  case outlineCoord | compOffset | lsb | kernValue | anchorCoord | valueDelta | gvarDelta | hvarDelta | metricI16 | compositeBbox =>
     left
     simp only [Representable] at hr
     simp only [fieldPipelineOld, otRoundI16] at hw
